@@ -1,9 +1,10 @@
 """C11 — clock times and zones: conversion keeps the instant, arithmetic is modulo 24 h."""
 from tools import common as C, wire, oracle as O
 
-LEAN_MODULES = ["SCP.C11"]
+LEAN_MODULES = ["SCP.C11", "SCP.RegexFields"]
 THEOREMS = ["SCP.C11." + t for t in """with_zone with_zone_shows_wall convert_keeps_instant convert_shown add_duration sub_duration to_abs
-to_symmetric print_fields zone_offsets_in_range phrase_with_zone""".split()]
+to_symmetric print_fields zone_offsets_in_range phrase_with_zone""".split()] + \
+    ["SCP.RegexFields.gen_time_fields_in_range", "SCP.RegexFields.gen_zone_fields_in_range"]
 RULE = ("times H:MM[:SS] in 24-hour form and 1-11 am/pm form x source zone x target zone x default zone (set_timezone) x durations (0 s .. 3 days, whole hours, whole minutes, and 2^31 .. 2^40 s, i.e. beyond 32-bit second counts); "
         "quick: random pairs over all expressible zone names and GMT+-h[:mm] forms; thorough: ALL ordered pairs of expressible "
         "zones; oracle = integer spec (instant = today's midnight UTC + wall - 60*offset; shown = (instant + 60*offset) mod 86400); "
